@@ -13,8 +13,8 @@
    where no modifying call is in flight a Size call returns exactly the number
    of pairs of the current table -- a duplicate-free enumeration of what lock-free
    readers can find there, which is what a Range visits.
-   Not proved for the concurrent Map machine XMachineS (map.go; same protocol,
-   replayed against the code by CORR-sched, counter steps included). *)
+   Map variant (map.go, XMachineS): props/C03.v -- C03_counter (slots with a key =
+   counter + additions owed, every table, every reachable state). *)
 From CacheV Require Import Base SpecMap Client CacheModel CacheOfModel Ops SpecTTL.
 From CacheV Require Import TableModel.
 From CacheV.proofs Require Import C06_hist C08_cache C11_lists C11_table.
